@@ -3,4 +3,7 @@ import chainlib, chaintrace
 
 def run(tier):
     return chainlib.run_family("C04", tier, "Chain_subs.cfg", "Chain_subs_edges.cfg",
-                               {"quick": (1, 5), "thorough": (5, 6)}, extra=chaintrace.leg_t("C04"), live_cfg="Chain_subs_live.cfg")
+                               {"quick": (1, 5), "thorough": (5, 6)}, extra=chaintrace.leg_t("C04"), live_cfg="Chain_subs_live.cfg",
+                               # the subs graph (listeners x pre-validated path) is too large for a full edge cover of
+                               # 6-block trees: the thorough tier replays a 120 000-path sample, the quick tier 4 000
+                               thorough_paths=120000)
